@@ -538,9 +538,22 @@ func evalModel(cs *modelCase) *verdict {
 		case len(res.Sites) == 0:
 			v.Status = "unjudged:error-without-site"
 		default:
-			// The rewritten file does not print as valid Go (C07's subject) or
-			// another error: not judged here.
+			// gopatch found a site and then reported an error instead of
+			// rewriting. That is right when the rewritten file would not be
+			// valid Go (C07's subject). When the reference's own result
+			// prints and parses back to itself, the replacement was
+			// admissible and the error means instances were left unrewritten.
 			v.Status = "unjudged:apply-error"
+			if res.Err == nil && !res.Ambiguous && res.Inadmissible == 0 {
+				exp := ref.Resolve(res.Expected, hostTree, ref.Output)
+				if rt, err := ref.RoundTrip(exp); err == nil && ref.Equal(ref.StripImports(rt), ref.StripImports(exp), ref.Output) {
+					v.Status = "discrepancy"
+					v.Class = "error-instead-of-rewrite"
+					v.Props = []string{"C01", "C03"}
+					v.Msg = fmt.Sprintf("the reference finds %d admissible site(s) and its result is valid Go, but Apply fails: %s", len(res.Sites), r.ApplyErr)
+					return v
+				}
+			}
 		}
 		v.Msg = r.ApplyErr
 		return v
